@@ -208,10 +208,16 @@ def branches_when(root, text, value):
     return out
 
 
-def regen_loop(par, gen_node):
+def regen_loop(par, gen_node, fn=None):
     """The loop that keeps regenerating a name: `while <taken> { .. gen() .. }`, or `loop { .. if/match <free> => break .. ; gen() }`.
-    Returns (loop node, [membership tests: (`set text`, arg node)], form) or (None, [], None)."""
+    Returns (loop node, [membership tests: (`set text`, arg node)], form) or (None, [], None).
+    With `fn` (the enclosing function) the exit condition is read as a truth table over its `S.contains(x)` atoms (named booleans
+    inlined, any equivalent formula): a test counts when the loop cannot be left while it is true."""
     from synq import walk, show
+    if fn is not None:
+        r = _regen_loop_tt(par, gen_node, fn)
+        if r is not None:
+            return r
     cur = gen_node
     while id(cur) in par:
         p_ = par[id(cur)]
@@ -241,3 +247,118 @@ def regen_loop(par, gen_node):
             return (p_, tests, "loop") if guarded else (p_, [], "loop-unguarded")
         cur = p_
     return None, [], None
+
+
+def _regen_loop_tt(par, gen_node, fn):
+    import itertools
+    import alpha
+    import boolfn
+    from synq import walk, show
+    cur = gen_node
+    loop = None
+    while id(cur) in par:
+        p_ = par[id(cur)]
+        if p_.get("k") in ("while", "loop") and (p_["body"] is cur or _contains(p_["body"], cur)):
+            loop = p_
+            break
+        cur = p_
+    if loop is None:
+        return None
+    A = alpha.Inliner(fn)
+    # exit conditions: `!W` for `while W`; for `loop`, the conjunction of the `if`s around each `break` (one disjunct per break)
+    exits = []
+    if loop["k"] == "while":
+        exits.append(([], [loop["c"]]))          # (positive conds, negated conds)
+    else:
+        for b in [x for x in walk(loop["body"]) if x.get("k") == "break"]:
+            pos, neg, c2 = [], [], b
+            ok = True
+            while id(c2) in par and c2 is not loop:
+                q = par[id(c2)]
+                if q.get("k") == "if" and q["c"].get("k") != "let":
+                    if q.get("t") is c2 or _contains(q.get("t"), c2):
+                        pos.append(q["c"])
+                    elif q.get("e") is not None and (q["e"] is c2 or _contains(q["e"], c2)):
+                        neg.append(q["c"])
+                if q.get("k") == "match":
+                    for a in q["arms"]:
+                        if a["body"] is c2 or _contains(a["body"], c2):
+                            if a.get("guard") is not None:
+                                pos.append(a["guard"])
+                            else:
+                                ok = False
+                c2 = q
+            if not ok or not (pos or neg):
+                return None
+            exits.append((pos, neg))
+        if not exits:
+            return None
+    # atoms: membership tests reachable from those conditions through immutable locals
+    atoms, seen = [], set()
+
+    def collect(node, depth=0):
+        if node is None or depth > 6:
+            return
+        for x in walk(node):
+            if x.get("k") == "mcall" and x["m"] == "contains" and x["a"]:
+                t = show(x).replace(" ", "")
+                if t not in seen:
+                    seen.add(t)
+                    atoms.append((t, x))
+            if x.get("k") == "path" and "::" not in x["p"]:
+                init = A._init_of(x, x["p"])
+                if init is not None and id(init) not in seen:
+                    seen.add(id(init))
+                    collect(init, depth + 1)
+    for pos, neg in exits:
+        for c_ in pos + neg:
+            collect(c_)
+    if not atoms or len(atoms) > 6:
+        return None
+    others = {}
+
+    def exit_value(assign):
+        def atom(t):
+            t = t.replace(" ", "")
+            if t in assign:
+                return assign[t]
+            return others.get(t)
+        res = False
+        for pos, neg in exits:
+            v = all(boolfn.ev(c_, atom, A) for c_ in pos) and all(not boolfn.ev(c_, atom, A) for c_ in neg)
+            res = res or v
+        return res
+    # free (non-membership) atoms such as `generated` are enumerated as well: find them lazily through boolfn.Unknown
+    free = []
+    for _ in range(4):
+        try:
+            for vals in itertools.product((True, False), repeat=len(atoms) + len(free)):
+                assign = {a[0]: v for a, v in zip(atoms, vals)}
+                for nm, v in zip(free, vals[len(atoms):]):
+                    others[nm] = v
+                exit_value(assign)
+            break
+        except boolfn.Unknown as e:
+            m = str(e)
+            nm = m.split("atom ", 1)[1].replace(" ", "") if "atom " in m else None
+            if nm is None or nm in free:
+                return None
+            free.append(nm)
+    else:
+        return None
+    tests = []
+    for i, (t, node) in enumerate(atoms):
+        blocking = True
+        for vals in itertools.product((True, False), repeat=len(atoms) + len(free)):
+            if not vals[i]:
+                continue
+            assign = {a[0]: v for a, v in zip(atoms, vals)}
+            for nm, v in zip(free, vals[len(atoms):]):
+                others[nm] = v
+            # a test guarded by a free atom (`generated && named_before.contains(x)`) blocks when that atom holds: require blocking for the
+            # assignment where every free atom is true
+            if all(vals[len(atoms):]) and exit_value(assign):
+                blocking = False
+        if blocking:
+            tests.append((show(node["r"]), node["a"][0]))
+    return loop, tests, loop["k"] if tests else "loop-unguarded"
